@@ -8,6 +8,8 @@ package main
 // instructions answer "unknown" = false).
 
 import (
+	"go/token"
+
 	"golang.org/x/tools/go/ssa"
 )
 
@@ -499,4 +501,46 @@ func (r *Region) Ctx(a *Analysis, c *rctx) *FuncCtx {
 		return a.Ctx(c.fn)
 	}
 	return r.Ctx(a, c.parent).inlineCtx(c.fn, call.Call.Args, call)
+}
+
+// concatSeqs: the alternatives of a string value as sequences of concatenated leaves (string + and phis), following
+// the value through the helpers of the region; values for which atomic returns true are kept whole.
+func (r *Region) concatSeqs(v RV, atomic func(RV) bool, depth int) [][]RV {
+	if depth > 14 || (atomic != nil && atomic(v)) {
+		return [][]RV{{v}}
+	}
+	switch x := v.V.(type) {
+	case *ssa.BinOp:
+		if x.Op == token.ADD && isStringType(x.Type()) {
+			var out [][]RV
+			for _, l := range r.concatSeqs(RV{V: x.X, C: v.C}, atomic, depth+1) {
+				for _, rr := range r.concatSeqs(RV{V: x.Y, C: v.C}, atomic, depth+1) {
+					out = append(out, append(append([]RV{}, l...), rr...))
+				}
+			}
+			if len(out) > 64 {
+				out = out[:64]
+			}
+			return out
+		}
+	case *ssa.Phi:
+		var out [][]RV
+		for _, e := range x.Edges {
+			out = append(out, r.concatSeqs(RV{V: e, C: v.C}, atomic, depth+1)...)
+		}
+		return out
+	}
+	os := r.Origins(RV{V: v.V, C: v.C})
+	if len(os) == 1 && os[0].V == v.V && os[0].C == v.C {
+		return [][]RV{{v}}
+	}
+	var out [][]RV
+	for _, o := range os {
+		if o.V == v.V && o.C == v.C {
+			out = append(out, []RV{o})
+			continue
+		}
+		out = append(out, r.concatSeqs(RV{V: o.V, C: o.C}, atomic, depth+1)...)
+	}
+	return out
 }
